@@ -60,9 +60,17 @@ func vhObject(id string, cur *object.Object) *object.Object {
 	}
 	// deadline: none, or one of two instants (equal deadlines on different ids exercise the id tie-break)
 	ex := vhDeadlines[vchoose(3)]
+	// fields: none, one number, or a number and a string (the weight of the field list counts in in_memory_size)
 	var fl field.List
-	if vthorough() && vnondetBool() {
+	nf := 0
+	if vthorough() || (cur != nil && g == cur.Geo()) {
+		nf = vchoose(3)
+	}
+	if nf >= 1 {
 		fl = fl.Set(field.Make("f", "1"))
+	}
+	if nf == 2 {
+		fl = fl.Set(field.Make("name", "a longer string value"))
 	}
 	return object.New(id, g, ex, fl)
 }
@@ -165,7 +173,7 @@ func vhCheck(c *Collection, st *[3]vhDesc) {
 	vassert("C19.spatial_exact", ok && k == nsp)
 }
 
-//verif:cfg quick.b_ops=3 thorough.b_ops=4 quick.b_ids=2 thorough.b_ids=3 b_kinds=string,point,rect,empty-spatial,same_geometry_as_the_current_object(FSET/EXPIRE/PERSIST) b_deadline=none|5s|9s b_string_values=3_concrete(one_equal_to_the_text_of_a_point) thorough.b_string_values=+1_symbolic_byte
+//verif:cfg quick.b_ops=3 thorough.b_ops=4 quick.b_ids=2 thorough.b_ids=3 b_kinds=string,point,rect,empty-spatial,same_geometry_as_the_current_object(FSET/EXPIRE/PERSIST) b_deadline=none|5s|9s b_fields=0..2_on_a_re-set(quick),_on_every_object(thorough) b_string_values=3_concrete(one_equal_to_the_text_of_a_point) thorough.b_string_values=+1_symbolic_byte
 func VH_C19_history() {
 	ops := 3
 	if vthorough() {
